@@ -49,6 +49,8 @@ type voteCtx struct {
 	Seq, Epoch uint64
 	Proposer   int   // member id
 	Voters     []int // member ids
+	Tip        uint64
+	CurKey     *relayertypes.PublicKey
 }
 
 func (s *Session) voteCtx() (*voteCtx, error) {
@@ -56,7 +58,11 @@ func (s *Session) voteCtx() (*voteCtx, error) {
 	if err != nil {
 		return nil, err
 	}
-	return &voteCtx{Seq: uint64(st.Seq), Epoch: uint64(st.Epoch), Proposer: st.Proposer, Voters: st.Voters}, nil
+	vc := &voteCtx{Seq: uint64(st.Seq), Epoch: uint64(st.Epoch), Proposer: st.Proposer, Voters: st.Voters, Tip: uint64(st.Tip)}
+	if pk, err := s.C.App.BitcoinKeeper.Pubkey.Get(s.C.ReadCtx()); err == nil {
+		vc.CurKey = &pk
+	}
+	return vc, nil
 }
 
 const outsiderIdx = 7 // member index of the identity that never joins the group
@@ -167,19 +173,18 @@ type votedMsg struct {
 	Extra   Ev
 }
 
-func (s *Session) newVotedMsg(kind string, proposerBech string, btcKey *sim.BtcKey) (*votedMsg, error) {
-	ctx := s.C.ReadCtx()
+func (s *Session) newVotedMsg(vc *voteCtx, kind string, proposerBech string) (*votedMsg, error) {
 	n := s.NewVid()
 	payload := fmt.Sprintf("p%d", n)
 	switch kind {
 	case "NewBlockHashes":
-		tip, err := s.C.App.BitcoinKeeper.BlockTip.Peek(ctx)
-		if err != nil {
-			return nil, err
+		nh := 1 + s.R.Intn(2)
+		m := &bitcointypes.MsgNewBlockHashes{Proposer: proposerBech, StartBlockNumber: vc.Tip + 1}
+		for i := 0; i < nh; i++ {
+			m.BlockHash = append(m.BlockHash, hash32([]byte(payload), []byte(s.C.ChainID), []byte{byte(i)}))
 		}
-		hash := hash32([]byte(payload), []byte(s.C.ChainID))
-		m := &bitcointypes.MsgNewBlockHashes{Proposer: proposerBech, StartBlockNumber: tip + 1, BlockHash: [][]byte{hash}}
-		return &votedMsg{Msg: m, SetVote: func(v *relayertypes.Votes) { m.Vote = v }, Data: m.VoteSigDoc(), Payload: payload, Extra: Ev{"pre": true, "post": true}}, nil
+		return &votedMsg{Msg: m, SetVote: func(v *relayertypes.Votes) { m.Vote = v }, Data: m.VoteSigDoc(), Payload: payload,
+			Extra: Ev{"pre": true, "post": true, "start": int64(vc.Tip + 1), "nh": nh}}, nil
 	case "NewPubkey":
 		k := sim.NewBtcKey(int64(n)*7919+s.R.Int63n(1000), n, n%2 == 0)
 		m := &bitcointypes.MsgNewPubkey{Proposer: proposerBech, Pubkey: k.Pub}
@@ -187,13 +192,10 @@ func (s *Session) newVotedMsg(kind string, proposerBech string, btcKey *sim.BtcK
 		return &votedMsg{Msg: m, SetVote: func(v *relayertypes.Votes) { m.Vote = v }, Data: m.VoteSigDoc(), Payload: payload,
 			Extra: Ev{"pre": true, "post": true, "key": fmt.Sprintf("%x", raw[:5])}}, nil
 	case "NewConsolidation":
-		cur, err := s.C.App.BitcoinKeeper.Pubkey.Get(ctx)
-		if err != nil {
-			return nil, err
-		}
-		raw, _ := btc.Tx(s.R, []btc.Out{{Value: 50_000, Script: btc.SystemScript(&cur)}}, 0)
+		raw, _ := btc.Tx(s.R, []btc.Out{{Value: 50_000, Script: btc.SystemScript(vc.CurKey)}}, 0)
 		m := &bitcointypes.MsgNewConsolidation{Proposer: proposerBech, NoWitnessTx: raw}
-		return &votedMsg{Msg: m, SetVote: func(v *relayertypes.Votes) { m.Vote = v }, Data: m.VoteSigDoc(), Payload: payload, Extra: Ev{"pre": true, "post": true}}, nil
+		return &votedMsg{Msg: m, SetVote: func(v *relayertypes.Votes) { m.Vote = v }, Data: m.VoteSigDoc(), Payload: payload,
+			Extra: Ev{"pre": true, "post": true, "payTo": fmt.Sprintf("%x", relayertypes.EncodePublicKey(vc.CurKey)[:5])}}, nil
 	}
 	return nil, fmt.Errorf("unknown kind %s", kind)
 }
@@ -211,7 +213,7 @@ func (s *Session) VotedTx(vc *voteCtx, kind string, vs VoteSpec, seqOffset int) 
 		pfID = 0
 	}
 	signer := s.member(pfID)
-	vm, err := s.newVotedMsg(kind, signer.Bech, nil)
+	vm, err := s.newVotedMsg(vc, kind, signer.Bech)
 	if err != nil {
 		return nil, err
 	}
@@ -221,16 +223,22 @@ func (s *Session) VotedTx(vc *voteCtx, kind string, vs VoteSpec, seqOffset int) 
 		f[k] = x
 	}
 	f["pf"] = pfID
-	if _, ok := f["key"]; !ok {
-		f["key"] = ""
-	}
+	fillVoteDefaults(f)
 	_, accSeq, _ := s.C.Account(signer.Addr)
 	sq := accSeq + uint64(seqOffset)
 	bz, err := s.C.SignTx(signer.Priv, []sdk.Msg{vm.Msg}, sim.SignOpts{Seq: &sq})
 	if err != nil {
 		return nil, err
 	}
-	return &RelTx{Bytes: bz, Ev: "vote", F: f, Sig: sig, Vid: s.NewVid()}, nil
+	return &RelTx{Bytes: bz, Ev: "vote", F: f, Sig: sig, Vid: s.NewVid(), Votes: v}, nil
+}
+
+func fillVoteDefaults(f Ev) {
+	for k, d := range map[string]interface{}{"key": "", "payTo": "", "start": 0, "nh": 0} {
+		if _, ok := f[k]; !ok {
+			f[k] = d
+		}
+	}
 }
 
 // EmitInit logs the state a chain starts from.
